@@ -28,3 +28,39 @@ theorem execProg_append (f : Stmt → St → List Ev → R) (p q : Prog) : ∀ (
     · simp [hok]
 
 end Scrapli.Lifecycle
+namespace Scrapli.Lifecycle
+variable {cfg : Cfg}
+
+/-- the first three statements of open() of either driver -/
+def openPre : Prog :=
+  [.simple ⟨.always, .logPre false⟩, .simple ⟨.always, .transportOpen⟩, .simple ⟨.always, .channelOpen⟩]
+
+theorem openOf_split (st : Stack) : ∃ tail, openOf st = openPre ++ tail := by
+  cases st
+  · exact ⟨_, rfl⟩
+  · exact ⟨_, rfl⟩
+
+set_option maxHeartbeats 1000000 in
+theorem openPre_congr (x : St) (la la' : Bool) (tn tn' : Tn) (hla : la = true → cfg.sink ≠ .none) (hla' : la' = true → cfg.sink ≠ .none)
+    (htn : resetTn (resetsOf cfg) tn = resetTn (resetsOf cfg) tn') (tape : List Ev) :
+    (execProg (execStmt0 cfg) cfg openPre { x with logAttached := la, tn := tn } tape).out
+      = (execProg (execStmt0 cfg) cfg openPre { x with logAttached := la', tn := tn' } tape).out ∧
+    (execProg (execStmt0 cfg) cfg openPre { x with logAttached := la, tn := tn } tape).tape
+      = (execProg (execStmt0 cfg) cfg openPre { x with logAttached := la', tn := tn' } tape).tape ∧
+    (execProg (execStmt0 cfg) cfg openPre { x with logAttached := la, tn := tn } tape).tr
+      = (execProg (execStmt0 cfg) cfg openPre { x with logAttached := la', tn := tn' } tape).tr ∧
+    ((execProg (execStmt0 cfg) cfg openPre { x with logAttached := la, tn := tn } tape).ok = true →
+      (execProg (execStmt0 cfg) cfg openPre { x with logAttached := la, tn := tn } tape).st
+        = (execProg (execStmt0 cfg) cfg openPre { x with logAttached := la', tn := tn' } tape).st) ∧
+    { (execProg (execStmt0 cfg) cfg openPre { x with logAttached := la, tn := tn } tape).st with logAttached := false }
+      = { (execProg (execStmt0 cfg) cfg openPre { x with logAttached := la', tn := tn' } tape).st with logAttached := false } := by
+  have hk : ∀ t : List Ev, (match t with | [] => EvK.ok | e :: _ => e.k) = EvK.ok ∨ (match t with | [] => EvK.ok | e :: _ => e.k) = EvK.drop ∨
+      (match t with | [] => EvK.ok | e :: _ => e.k) = EvK.stall ∨ (match t with | [] => EvK.ok | e :: _ => e.k) = EvK.refuse ∨
+      (match t with | [] => EvK.ok | e :: _ => e.k) = EvK.authFail := by
+    intro t; cases (match t with | [] => EvK.ok | e :: _ => e.k) <;> simp
+  cases hs : cfg.sink <;> cases hpk : (cfg.kind == TKind.paramiko) <;>
+    rcases hk tape with h | h | h | h | h <;>
+    simp [openPre, execProg, execNode, execList, guardHolds, execStmt0, transportOpen, channelOpen, R.ok, h, hs, hpk, htn] <;>
+    simp_all
+
+end Scrapli.Lifecycle
